@@ -5,7 +5,7 @@
 use super::common::*;
 use super::*;
 use crate::gen::{self, Knobs};
-use crate::sut::{self, bump, guarded, mark};
+use crate::sut::{self, bump, guarded, mark, It};
 use scnr::{FindMatches, Scanner, ScannerModeSwitcher};
 use std::rc::Rc;
 
@@ -55,7 +55,7 @@ impl Prop for C10 {
             "probe.token_after_nonzero_reset", "probe.token_after_advance", "probe.lookahead_token_after_reset",
             "probe.peek_after_reset", "probe.advance_after_reset", "probe.reset_in_nonzero_mode",
             "fault.reset_back", "fault.reset_fwd", "fault.reset_zero", "fault.reset_len", "fault.reset_beyond",
-            "fault.skip_ahead", "fault.mode_override",
+            "fault.skip_ahead", "fault.mode_override", "probe.positions_wrapped_iterator",
         ]
     }
     fn uses_cache(&self) -> bool {
@@ -97,12 +97,13 @@ impl<'w> Gen for Gen10<'w> {
             } else {
                 None
             };
-            return Some(Op::NewIter { it, sc: 0, input, positions: false, with_offset });
+            return Some(Op::NewIter { it, sc: 0, input, positions: rng.chance(1, 6), with_offset });
         }
         let it = *rng.pick(&its);
         let im = self.m.iters[it].as_ref().unwrap();
         let cands = im.last_peek.as_ref().map(advance_candidates).unwrap_or_default();
-        let weights = [40, 12, if cands.is_empty() { 0 } else { 25 }, 18, 5, 1];
+        let plain = !im.positions;
+        let weights = [40, if plain { 12 } else { 0 }, if cands.is_empty() || !plain { 0 } else { 25 }, 18, 5, 1];
         Some(match rng.weighted(&weights) {
             0 => Op::Next { it },
             1 => Op::PeekN { it, n: rng.range(1, 4) },
@@ -123,7 +124,7 @@ impl<'w> Gen for Gen10<'w> {
 
 struct St<'w> {
     sc: Rc<Scanner>,
-    sut: FindMatches<'w>,
+    sut: It<'w>,
     shadow: FindMatches<'w>,
     base: usize,
     input: &'w str,
@@ -170,7 +171,7 @@ impl<'w> Exec for Exec10<'w> {
                     }
                 }
             }
-            Op::NewIter { it, sc, input, with_offset, .. } => {
+            Op::NewIter { it, sc, input, with_offset, positions } => {
                 let Some(Some((s, cfg))) = self.scanners.get(*sc) else { return StepOut::skipped() };
                 let Some(inp) = self.world.inputs.get(*input) else { return StepOut::skipped() };
                 let inp: &'w str = inp.as_str();
@@ -183,13 +184,10 @@ impl<'w> Exec for Exec10<'w> {
                 self.iters[*it] = None;
                 let b = with_offset.map(|o| o.min(inp.len())).unwrap_or(0);
                 let s2 = s.clone();
-                let r = guarded(|| {
-                    let mut f = s2.find_iter(inp);
-                    if let Some(o) = with_offset {
-                        f = f.with_offset(*o);
-                    }
-                    f
-                });
+                if *positions {
+                    mark("probe.positions_wrapped_iterator");
+                }
+                let r = guarded(|| It::new(&s2, inp, *positions, *with_offset));
                 match r {
                     Ok(f) => {
                         if let Some(o) = with_offset {
@@ -226,7 +224,7 @@ impl<'w> Exec for Exec10<'w> {
                 let last_peek = st.last_peek.clone();
                 let out = match op {
                     Op::Next { .. } => {
-                        let a = guarded(|| st.sut.next().map(|m| sut::tok(&m)));
+                        let a = guarded(|| st.sut.next_tok());
                         let b = guarded(|| st.shadow.next().map(|m| sut::tok(&m)));
                         match (a, b) {
                             (Err(p), Err(_)) => {
@@ -271,7 +269,10 @@ impl<'w> Exec for Exec10<'w> {
                         }
                     }
                     Op::PeekN { n, .. } => {
-                        let a = guarded(|| sut::peek_obs(st.sut.peek_n(*n)));
+                        if st.sut.plain().is_none() {
+                            return StepOut::skipped();
+                        }
+                        let a = guarded(|| sut::peek_obs(st.sut.plain().unwrap().peek_n(*n)));
                         let b = guarded(|| sut::peek_obs(st.shadow.peek_n(*n)));
                         match (a, b) {
                             (Err(p), Err(_)) => {
@@ -308,7 +309,10 @@ impl<'w> Exec for Exec10<'w> {
                             mark("probe.advance_after_reset");
                         }
                         let mode = st.shadow.current_mode();
-                        match guarded(|| st.sut.advance_to(p)) {
+                        if st.sut.plain().is_none() {
+                            return StepOut::skipped();
+                        }
+                        match guarded(|| st.sut.plain().unwrap().advance_to(p)) {
                             Ok(r) => {
                                 st.shadow = fresh_shadow(&st.sc, st.input, p, mode);
                                 st.base = p;
